@@ -1,5 +1,6 @@
 SPECIFICATION Spec
 INVARIANT EqContract
+INVARIANT ForeignContract
 PROPERTY ScopeRestores
 PROPERTY SetTakesEffect
 CHECK_DEADLOCK FALSE
